@@ -48,9 +48,10 @@ LocsFor(maps, fns, symd) ==
 Profiles == { Prof(FnSets[f], MapSets[m], LocsFor(MapSets[m], FnSets[f], MapSets[m][2].hasfn)) : f \in DOMAIN FnSets, m \in DOMAIN MapSets }
 
 Modes == {"", "local", "fastlocal", "remote", "none", "force", "local:force", "remote:force", "demangle=full", "demangle=none",
-          "local:demangle=templates", "force:demangle=default", "bogus", "local:bogus"}
+          "local:demangle=templates", "force:demangle=default", "bogus", "local:bogus",
+          "demangle=default", "local:demangle=default"}      \* the default demangling is no request to force
 OpenAnswers == {"ok", "error", "mismatch"}
-LineAnswers == {"one", "two", "empty", "error"}
+LineAnswers == {"one", "two", "empty", "error", "hole"}
 RemoteAnswers == {"all", "subset", "extra", "garbage", "error", "emptyname"}
 
 VARIABLES pc, prof, mode, opens, lineans, remotes
@@ -58,12 +59,12 @@ vars == <<pc, prof, mode, opens, lineans, remotes>>
 Init == pc = "mode" /\ prof \in Profiles /\ mode = "" /\ opens = <<>> /\ lineans = <<>> /\ remotes = <<>>
 ParseMode == pc = "mode" /\ mode' \in Modes /\ pc' = "local" /\ UNCHANGED <<prof, opens, lineans, remotes>>
 UsesLocal(m) == m \notin {"remote", "remote:force", "none"}
-UsesRemote(m) == m \notin {"local", "fastlocal", "local:force", "local:demangle=templates", "local:bogus", "none"}
+UsesRemote(m) == m \notin {"local", "fastlocal", "local:force", "local:demangle=templates", "local:demangle=default", "local:bogus", "none"}
 Both(m) == UsesLocal(m) /\ UsesRemote(m)
 OpenChoices == IF Tier = "thorough" THEN [1..2 -> OpenAnswers]
                ELSE { <<"ok", "ok">>, <<"error", "ok">>, <<"mismatch", "ok">>, <<"ok", "error">> }
 LineChoices == IF Tier = "thorough" THEN [1..3 -> LineAnswers]
-               ELSE { [i \in 1..3 |-> a] : a \in LineAnswers } \cup { <<"one", "error", "two">>, <<"empty", "two", "one">> }
+               ELSE { [i \in 1..3 |-> a] : a \in LineAnswers } \cup { <<"one", "error", "two">>, <<"empty", "two", "one">>, <<"hole", "one", "hole">> }
 RemoteChoices == IF Tier = "thorough" THEN [1..2 -> RemoteAnswers]
                  ELSE { [i \in 1..2 |-> a] : a \in RemoteAnswers } \cup { <<"all", "error">>, <<"subset", "extra">> }
 \* the object-file plug-in answers for both mappings (one answer each) and one SourceLine answer class per location;
